@@ -30,12 +30,13 @@ import (
 // ---- replay descriptor ---------------------------------------------------
 
 type Op struct {
-	K   string   `json:"k"`             // abstract command (LineEdit.tla vocabulary)
-	Via string   `json:"via"`           // key: through the event handler; call: exported method
-	Key string   `json:"key,omitempty"` // binding used, e.g. "Ctrl+a", "Home"
-	Gs  []string `json:"gs,omitempty"`  // graphemes inserted / pasted / assigned
-	I   int      `json:"i,omitempty"`   // goto target
-	W   int      `json:"w,omitempty"`   // resize: new window width
+	K    string   `json:"k"`             // abstract command (LineEdit.tla vocabulary)
+	Via  string   `json:"via"`           // key: through the event handler; call: exported method
+	Key  string   `json:"key,omitempty"` // binding used, e.g. "Ctrl+a", "Home"
+	Gs   []string `json:"gs,omitempty"`  // graphemes inserted / pasted / assigned
+	I    int      `json:"i,omitempty"`   // goto target
+	W    int      `json:"w,omitempty"`   // resize: new window width
+	Base string   `json:",omitempty"`    // insjoin: the cluster the key text joins
 }
 
 type Scn struct {
@@ -274,6 +275,12 @@ func Run(c *Ctx, wk *Worker, sc *Scn) (evs []trace.Ev, note string) {
 			for _, g := range gs {
 				evsIn = append(evsIn, TextKey(g, vaxis.EventPress))
 			}
+		case op.Via == "key" && op.K == "insjoin":
+			// one key whose text joins the cluster left of the cursor (op.Base,
+			// typed just before): the oracle is told the cluster that results
+			evsIn = append(evsIn, TextKey(gs[0], vaxis.EventPress))
+			ev["gs"] = loc.ids([]string{op.Base + gs[0]})
+			ev["i"] = loc.id(op.Base)
 		case op.Via == "key" && op.K == "paste":
 			evsIn = append(evsIn, vaxis.PasteStartEvent{})
 			for _, g := range gs {
@@ -399,6 +406,17 @@ func keyOp(widget, k string, alt int) Op {
 
 func insOp(gs ...string) Op { return Op{K: "ins", Via: "key", Gs: gs} }
 
+// Joins: a base typed as one key, then a key whose text extends that cluster
+// (combining mark, emoji modifier, second regional indicator).
+// (No lone regional indicator as a base: next to a flag it would regroup the
+// neighbouring pairs, which the grapheme-level oracle does not describe.)
+var Joins = [][2]string{{"e", "\u0301"}, {"👍", "🏽"}, {"a", "\u0308"}, {"世", "\u3099"}}
+
+func joinOps(k int) []Op {
+	j := Joins[k%len(Joins)]
+	return []Op{insOp(j[0]), {K: "insjoin", Via: "key", Gs: []string{j[1]}, Base: j[0]}}
+}
+
 // BaseOps is the command alphabet of the bounded-exhaustive family.
 func BaseOps(widget string, alt int) []Op {
 	ops := []Op{insOp("a"), insOp("世"), insOp(EAcute), insOp(" ")}
@@ -505,7 +523,9 @@ func Random(rng *rand.Rand, widget string, n int) *Scn {
 			sc.Ops = append(sc.Ops, Op{K: "resize", Via: "call", W: []int{0, 1, 2, 3, 4, 5, 6, 8, 10, 14, 20, 40, 80}[rng.Intn(13)]})
 		default:
 			if widget == "textfield" {
-				switch rng.Intn(7) {
+				switch rng.Intn(8) {
+				case 7:
+					sc.Ops = append(sc.Ops, joinOps(rng.Intn(len(Joins)))...)
 				case 0:
 					sc.Ops = append(sc.Ops, Op{K: "reset", Via: "call"})
 				case 1:
